@@ -309,3 +309,204 @@ M.loop(P_RM + ':_merge_tail_from', 0,
                                                len(segments) - _i + len(non_merged__out__sorted), n),
                old <= n or in_some_between(segments, len(segments) - _i, len(segments), n)),
        modifies=dict(initial=Int, non_merged__out__sorted=MListOf(PAIR), from_to='local'))
+
+# ------------------------------------------------------------------------------ partitioning
+# A Partitioning (head_to, segments, tail_from) denotes the union of (-oo, h] for h in head_to, the segments,
+# and [t, +oo) for t in tail_from.  Every stored number is >= 1 (`wf_part`): that is what `merge` relies on.
+
+PARTITIONING = Inst(range_merge.Partitioning, head_to=MListOf(Int), segments=MListOf(PAIR), tail_from=MListOf(Int))
+PARTITIONER = Inst(range_merge._Partitioner, _o=PARTITIONING)
+_P_MODIFIES = ('self._o.head_to', 'self._o.segments', 'self._o.tail_from')
+
+
+def part_mem3(head_to, segments, tail_from, n):
+    return exists_range(0, len(head_to), lambda k: n <= head_to[k]) \
+        or in_some(segments, n) \
+        or exists_range(0, len(tail_from), lambda k: tail_from[k] <= n)
+
+
+def part_mem(p, n):
+    return part_mem3(p.head_to, p.segments, p.tail_from, n)
+
+
+def wf_part3(head_to, segments, tail_from):
+    return forall_range(0, len(head_to), lambda k: head_to[k] >= 1) \
+        and forall_range(0, len(segments), lambda k: segments[k][0] >= 1) \
+        and forall_range(0, len(tail_from), lambda k: tail_from[k] >= 1)
+
+
+def wf_part(p):
+    return wf_part3(p.head_to, p.segments, p.tail_from)
+
+
+def snapshot(p):
+    return (p.head_to.copy(), p.segments.copy(), p.tail_from.copy())
+
+
+def same_items(xs, old_xs):
+    return len(xs) == len(old_xs) and forall_range(0, len(old_xs), lambda k: xs[k] == old_xs[k])
+
+
+def extends(xs, old_xs):
+    """xs is old_xs, possibly with one more item at the end"""
+    return len(old_xs) <= len(xs) and len(xs) <= len(old_xs) + 1 \
+        and forall_range(0, len(old_xs), lambda k: xs[k] == old_xs[k])
+
+
+def same_range(r, x):
+    return kind_of(r) == kind_of(x) and fst(r) == fst(x) and snd(r) == snd(x)
+
+
+for _method, _shape, _cls in _RANGE_FORMS:
+    M.contract('%s:_Partitioner.%s' % (P_RM, _method),
+               params=dict(self=PARTITIONER, x=_shape), ghosts=dict(n=Int, N=Int, cls=Const(_cls)),
+               returns=Opt(_shape), modifies=_P_MODIFIES,
+               old=lambda self: snapshot(self._o),
+               ensures={
+                   'a-range-with-a-negative-number-is-returned-and-nothing-is-stored': lambda self, x, old, result:
+                   implies(has_neg(x),
+                           result is not None and same_range(result, x)
+                           and same_items(self._o.head_to, old[0]) and same_items(self._o.segments, old[1])
+                           and same_items(self._o.tail_from, old[2])),
+                   'a-range-without-negative-number-is-not-returned': lambda x, result:
+                   implies(not has_neg(x), result is None),
+                   'stored-items-stay': lambda self, old:
+                   extends(self._o.head_to, old[0]) and extends(self._o.segments, old[1])
+                   and extends(self._o.tail_from, old[2]),
+                   # n: an arbitrary line number of a text of N lines (N arbitrary): S is preserved on [1, oo)
+                   'stored-with-the-same-line-numbers': lambda self, x, old, n, N:
+                   implies(1 <= n and n <= N and not has_neg(x),
+                           iff(part_mem(self._o, n), part_mem3(old[0], old[1], old[2], n) or S(x, N, n))),
+                   'every-stored-number-is-a-line-number': lambda self, old:
+                   implies(wf_part3(old[0], old[1], old[2]), wf_part(self._o)),
+               }, raises_only=())
+
+# ------------------------------------------------------------------------------ sequences of ranges
+# A range object inside a sequence of symbolic length is known through its interface only: its form (`kind`)
+# and the integers it is written with (`a`, and `b` for the form m:n).  `accept` dispatches on the form to the
+# visitor's method for that form, called with a real range object with these integers; a range object that
+# the visitor returns is taken by value (form and integers).  The four real classes are proved to dispatch
+# like this ('accept-dispatches-to-the-method-of-the-form' below).
+from pyvc.values import SOpt, SChoice  # noqa: E402
+
+
+def _range_accept(interp, self, args, kwargs):
+    visitor = args[0]
+    kind = interp.getattr(self, 'kind')
+    k = kind if isinstance(kind, int) else interp.st.choose(4, [kind.t == i for i in range(4)])
+    method_name, _shape_, cls = _RANGE_FORMS[k]
+    x = object.__new__(cls)
+    if cls is SingleLineRange:
+        x.line_number = interp.getattr(self, 'a')
+    elif cls is LowerLimitRange:
+        x.lower_limit = interp.getattr(self, 'a')
+    elif cls is UpperLimitRange:
+        x.upper_limit = interp.getattr(self, 'a')
+    else:
+        x.lower_limit = interp.getattr(self, 'a')
+        x.upper_limit = interp.getattr(self, 'b')
+    return _range_by_value(interp, interp.call(interp.getattr(visitor, method_name), [x], {}))
+
+
+def _range_by_value(interp, r):
+    if isinstance(r, (SOpt, SChoice)):
+        r = interp.resolve(r)
+    if isinstance(r, range_expr.Range):
+        return new_opaque(interp, RangeI, 'range', preset={'kind': kind_of(r), 'a': fst(r), 'b': snd(r)})
+    return r
+
+
+class RangeI(Interface):
+    target_class = range_expr.Range
+    attrs = {'kind': IntRange(0, 3), 'a': Int, 'b': Int}
+    methods = {'accept': Method(model=_range_accept)}
+
+
+RANGES = ListOf(Iface(RangeI))
+MRANGES = MListOf(Iface(RangeI))
+
+
+class VisitorI(Interface):
+    """any visitor: records which method is called with what"""
+    target_class = range_expr.RangeVisitor
+    methods = {name: Method(returns=Any_, event=name) for name, _s, _c in _RANGE_FORMS}
+
+
+for _method, _shape, _cls in _RANGE_FORMS:
+    M.contract('%s:%s.accept' % (P_RE, _cls.__name__),
+               params=dict(self=_shape, visitor=Iface(VisitorI)), ghosts=dict(method=Const(_method)),
+               ensures={'accept-dispatches-to-the-method-of-the-form': lambda self, visitor, method, trace, result:
+               len(trace) == 2 and trace[0][0] == method and trace[0][1] is visitor and len(trace[0][2]) == 1
+               and trace[0][2][0] is self and trace[1][2] is result}, raises_only=())
+
+assert [kind_of(object.__new__(c)) for _m, _s, c in _RANGE_FORMS] == [K_SINGLE, K_LOWER, K_UPPER, K_LOWER_UPPER]
+
+
+def any_S(rs, end, N, n):
+    """n is denoted by one of the first `end` ranges of rs, in a text of N lines"""
+    return exists_range(0, end, lambda k: S(rs[k], N, n))
+
+
+def none_neg(rs, end):
+    return forall_range(0, end, lambda k: not has_neg(rs[k]))
+
+
+def keeps_items(xs, old_xs):
+    return len(old_xs) <= len(xs) and forall_range(0, len(old_xs), lambda k: xs[k] == old_xs[k])
+
+
+def keeps_all_items(p, old):
+    return keeps_items(p.head_to, old[0]) and keeps_items(p.segments, old[1]) and keeps_items(p.tail_from, old[2])
+
+
+M.contract(P_RM + ':partition',
+           params=dict(ranges=RANGES, output_of_non_neg_values=PARTITIONING), ghosts=dict(n=Int, N=Int),
+           returns=MRANGES,
+           modifies=('output_of_non_neg_values.head_to', 'output_of_non_neg_values.segments',
+                     'output_of_non_neg_values.tail_from'),
+           old=lambda output_of_non_neg_values: snapshot(output_of_non_neg_values),
+           ensures={
+               'returned-ranges-have-a-negative-number': lambda result:
+               forall_range(0, len(result), lambda k: has_neg(result[k])),
+               'nothing-returned-when-no-range-has-a-negative-number': lambda ranges, result:
+               implies(none_neg(ranges, len(ranges)), len(result) == 0),
+               # n: an arbitrary line number of a text of N lines (N arbitrary)
+               'every-range-is-either-returned-or-stored-with-the-same-line-numbers':
+                   lambda ranges, output_of_non_neg_values, old, n, N, result:
+                   implies(1 <= n and n <= N,
+                           iff(part_mem(output_of_non_neg_values, n) or any_S(result, len(result), N, n),
+                               part_mem3(old[0], old[1], old[2], n) or any_S(ranges, len(ranges), N, n))),
+               'stored-items-stay': lambda output_of_non_neg_values, old: keeps_all_items(output_of_non_neg_values, old),
+               'every-stored-number-is-a-line-number': lambda output_of_non_neg_values, old:
+               implies(wf_part3(old[0], old[1], old[2]), wf_part(output_of_non_neg_values)),
+           }, raises_only=())
+
+M.loop(P_RM + ':partition', 0,
+       invariant=lambda _i, ranges, output_of_non_neg_values, ranges_w_neg_value, old, n, N:
+       forall_range(0, len(ranges_w_neg_value), lambda k: has_neg(ranges_w_neg_value[k]))
+       and implies(none_neg(ranges, _i), len(ranges_w_neg_value) == 0)
+       and implies(1 <= n and n <= N,
+                   iff(part_mem(output_of_non_neg_values, n)
+                       or any_S(ranges_w_neg_value, len(ranges_w_neg_value), N, n),
+                       part_mem3(old[0], old[1], old[2], n) or any_S(ranges, _i, N, n)))
+       and keeps_all_items(output_of_non_neg_values, old)
+       and implies(wf_part3(old[0], old[1], old[2]), wf_part(output_of_non_neg_values)),
+       modifies={'ranges_w_neg_value': MRANGES, 'range_': 'local', 'mb_negative_range': 'local',
+                 'output_of_non_neg_values.head_to': MListOf(Int), 'output_of_non_neg_values.segments': MListOf(PAIR),
+                 'output_of_non_neg_values.tail_from': MListOf(Int)})
+
+M.contract(P_RM + ':translate_neg_to_non_neg',
+           params=dict(ranges=RANGES, num_model_lines=Nat), ghosts=dict(n=Int), returns=MRANGES,
+           ensures={
+               'one-range-for-each-range': lambda ranges, result: len(result) == len(ranges),
+               'no-negative-number-left': lambda result: none_neg(result, len(result)),
+               'each-denotes-the-same-lines': lambda ranges, num_model_lines, n, result:
+               forall_range(0, len(ranges), lambda k:
+               iff(S(result[k], num_model_lines, n), S(ranges[k], num_model_lines, n))),
+           }, raises_only=())
+
+M.loop(P_RM + ':translate_neg_to_non_neg', 0,
+       invariant=lambda _i, ranges, ret_val, num_model_lines, n:
+       len(ret_val) == _i and none_neg(ret_val, len(ret_val))
+       and forall_range(0, _i, lambda k: iff(S(ret_val[k], num_model_lines, n), S(ranges[k], num_model_lines, n))),
+       modifies={'ret_val': MRANGES, 'range_': 'local'})
